@@ -202,6 +202,10 @@ def rule_positions(ctx):
     n2, b2 = find(f2.node, "_a = _d.get(_char)")
     ok2 = n2 is not None and has(f2.node, f"if {b2['_a']} is None:\n    {b2['_a']} = _next\n    {b2['_d']}[{b2['_char']}] = {b2['_a']}\n    _next += 1") \
         and has(f2.node, f"for _h in range(_n):\n    _BODY")
+    if not ok2:
+        # the same numbering written with a membership test: a base seen for the first time gets the next number
+        n3, b3 = find(f2.node, "if _char not in _d:\n    _d[_char] = _next\n    _next += 1")
+        ok2 = n3 is not None and has(f2.node, f"_out[_h, _i] = {b3['_d']}[{b3['_char']}]") and has(f2.node, "for _h in range(_n):\n    _BODY")
     ctx.check(bool(ok1 and ok2), 'R20.3/numbering', f1.construct('first-appearance'), "ALT order and GT numbering are both by first appearance, REF first",
               "ALT order and GT numbering are no longer both first-appearance", f1.where())
 
